@@ -59,7 +59,9 @@ func c06Prefix(r *core.Report) {
 	p := r.Prog
 	// ---- writer
 	put := r.Anchor(rule, "gsfa/linkedlog.(*LinkedLog).Put")
-	if put != nil {
+	if put != nil && c06AppendLayout(r, put) {
+		// decided on the evaluated layout of the record buffer
+	} else if put != nil {
 		var prefixVar, payloadLenArg, written types.Object
 		var wroteBuf ast.Expr
 		var firstAppendOK, afterArgOK bool
@@ -201,40 +203,181 @@ func c06Prefix(r *core.Report) {
 			r.Check(!bad, rule, fmt.Sprintf("%s#width-from-record-size@%d", rd.Key, nWidth), pos(r, cs.Call), "varint width not computed from the record size",
 				"the prefix width is computed as the varint width of the record size; the prefix encodes the payload length, which is shorter by the prefix itself, so the widths differ whenever the record size crosses 128 or 16384: the reader skips one byte too many and the batch is unreadable")
 		}
-		// positive: decode + consistency check dominating every success return
-		var nObj, plObj types.Object
-		var decodeNode *core.GNode
-		for _, n := range stmtNodes(g) {
-			as, ok := n.Ast.(*ast.AssignStmt)
-			if !ok || len(as.Rhs) != 1 || len(as.Lhs) != 2 {
-				continue
-			}
-			if c, ok := core.Unparen(as.Rhs[0]).(*ast.CallExpr); ok && core.CalleeName(info, c) == "encoding/binary.Uvarint" {
-				plObj, nObj = core.ObjOf(info, as.Lhs[0]), core.ObjOf(info, as.Lhs[1])
-				decodeNode = n
-			}
+		// positive: decode + consistency check dominating every success return. The decode may sit in ReadWithSize or in a
+		// helper of the package that ReadWithSize hands the record buffer to.
+		type decodeSite struct {
+			fn       *core.Func
+			node     *core.GNode
+			nObj, pl types.Object
+			rec      types.Object // the buffer that is decoded
+			call     *core.GNode  // helper case: the node in rd that calls the helper
+			callErr  types.Object
+			recInRd  types.Object
 		}
-		if decodeNode == nil || nObj == nil {
-			r.Violation(rule, rd.Key+"#prefix-decoded", posP(r, rd.Pos()), "the reader does not decode the stored length prefix (binary.Uvarint) to find where the payload starts")
-		} else {
-			r.OK(rule, rd.Key+"#prefix-decoded", pos(r, decodeNode.Ast), "prefix decoded from the stored bytes")
-			for i, rn := range g.Returns() {
-				if nilErr, dec := isNilErrReturn(rd, rn); dec && !nilErr {
+		findDecode := func(fn *core.Func) *decodeSite {
+			fi := fn.Pkg.TypesInfo
+			var ds *decodeSite
+			for _, n := range stmtNodes(p.Graph(fn)) {
+				as, ok := n.Ast.(*ast.AssignStmt)
+				if !ok || len(as.Rhs) != 1 || len(as.Lhs) != 2 {
 					continue
 				}
-				ok := false
-				for _, fc := range g.FactsAt(rn) {
-					if fc.Tag == nil && core.Mentions(info, fc.Expr, nObj) && core.Mentions(info, fc.Expr, plObj) && core.Mentions(info, fc.Expr, size) && !fc.Truth && strings.Contains(core.ExprStr(fc.Expr), "!=") {
-						ok = true
+				if c, ok := core.Unparen(as.Rhs[0]).(*ast.CallExpr); ok && core.CalleeName(fi, c) == "encoding/binary.Uvarint" && len(c.Args) == 1 {
+					ds = &decodeSite{fn: fn, node: n, pl: core.ObjOf(fi, as.Lhs[0]), nObj: core.ObjOf(fi, as.Lhs[1]), rec: core.ObjOf(fi, c.Args[0])}
+				}
+			}
+			return ds
+		}
+		ds := findDecode(rd)
+		if ds == nil {
+			for _, n := range stmtNodes(g) {
+				for _, c := range nodeCalls(n) {
+					fo := core.Callee(info, c)
+					if fo == nil {
+						continue
+					}
+					h := p.ByObj[fo.Origin()]
+					if h == nil || h.Body == nil || h.Pkg != rd.Pkg || h == rd {
+						continue
+					}
+					hd := findDecode(h)
+					if hd == nil || hd.rec == nil {
+						continue
+					}
+					for ai, a := range c.Args {
+						if po := h.ParamObj(ai); po != nil && types.Object(po) == hd.rec {
+							hd.recInRd = core.ObjOf(info, a)
+						}
+					}
+					if hd.recInRd == nil {
+						continue
+					}
+					hd.call = n
+					if as, ok := n.Ast.(*ast.AssignStmt); ok && len(as.Lhs) > 0 {
+						if eo := core.ObjOf(info, as.Lhs[len(as.Lhs)-1]); eo != nil && core.IsErrorType(eo.Type()) {
+							hd.callErr = eo
+						}
+					}
+					ds = hd
+				}
+			}
+		}
+		if ds == nil || ds.nObj == nil {
+			r.Violation(rule, rd.Key+"#prefix-decoded", posP(r, rd.Pos()), "the reader does not decode the stored length prefix (binary.Uvarint) to find where the payload starts")
+		} else {
+			r.OK(rule, rd.Key+"#prefix-decoded", pos(r, ds.node.Ast), "prefix decoded from the stored bytes")
+			di := ds.fn.Pkg.TypesInfo
+			dg := p.Graph(ds.fn)
+			// what stands for the record size where the decode is: the size parameter, len(record), or a local defined from those
+			sizeObjs := map[types.Object]bool{}
+			if ds.fn == rd && size != nil {
+				sizeObjs[size] = true
+			}
+			var isSizeRef func(e ast.Expr) bool
+			isSizeRef = func(e ast.Expr) bool {
+				found := false
+				ast.Inspect(e, func(m ast.Node) bool {
+					switch x := m.(type) {
+					case *ast.Ident:
+						if o := di.Uses[x]; o != nil && sizeObjs[o] {
+							found = true
+						}
+					case *ast.CallExpr:
+						if core.BuiltinName(di, x) == "len" && len(x.Args) == 1 && ds.rec != nil && core.ObjOf(di, x.Args[0]) == ds.rec && ds.fn != rd {
+							found = true
+						}
+					}
+					return true
+				})
+				return found
+			}
+			for round := 0; round < 2; round++ {
+				ast.Inspect(ds.fn.Body, func(m ast.Node) bool {
+					if as, ok := m.(*ast.AssignStmt); ok && len(as.Lhs) == len(as.Rhs) {
+						for i, l := range as.Lhs {
+							if o := core.ObjOf(di, l); o != nil && !sizeObjs[o] && singleDef(ds.fn, o) != nil && isSizeRef(as.Rhs[i]) {
+								if _, plain := stripConvs(di, as.Rhs[i]).(*ast.BinaryExpr); !plain {
+									sizeObjs[o] = true
+								}
+							}
+						}
+					}
+					return true
+				})
+			}
+			recordIsSizeBytes := true
+			if ds.fn != rd {
+				// the buffer handed to the helper is the whole record: allocated with the record size
+				recordIsSizeBytes = false
+				if d := singleDef(rd, ds.recInRd); d != nil {
+					if c, ok := core.Unparen(d).(*ast.CallExpr); ok && core.BuiltinName(info, c) == "make" && len(c.Args) == 2 && core.ObjOf(info, stripConvs(info, c.Args[1])) == types.Object(size) {
+						recordIsSizeBytes = true
 					}
 				}
-				r.Check(ok, rule, fmt.Sprintf("%s#prefix-consistent@%d", rd.Key, i), pos(r, rn.Ast), "success return dominated by the check prefixLen + payloadLen == size",
-					"a success return is not dominated by a check that the decoded prefix (width + payload length) matches the record size")
+			}
+			consistentAt := func(gg *core.Graph, rn *core.GNode) bool {
+				for _, fc := range gg.FactsAt(rn) {
+					be, isB := core.Unparen(fc.Expr).(*ast.BinaryExpr)
+					if fc.Tag != nil || !isB {
+						continue
+					}
+					if !((be.Op == token.NEQ && !fc.Truth) || (be.Op == token.EQL && fc.Truth)) {
+						continue
+					}
+					if core.Mentions(di, fc.Expr, ds.nObj) && core.Mentions(di, fc.Expr, ds.pl) && isSizeRef(fc.Expr) {
+						return true
+					}
+				}
+				return false
+			}
+			if ds.fn != rd {
+				helperOK := recordIsSizeBytes
+				for _, rn := range dg.Returns() {
+					if nilErr, dec := isNilErrReturn(ds.fn, rn); dec && !nilErr {
+						continue
+					}
+					if !consistentAt(dg, rn) {
+						helperOK = false
+					}
+				}
+				for i, rn := range g.Returns() {
+					if nilErr, dec := isNilErrReturn(rd, rn); dec && !nilErr {
+						continue
+					}
+					ok := helperOK && ds.call != nil && ds.callErr != nil && g.Dominates(ds.call, rn)
+					if ok {
+						ok = false
+						for _, fc := range g.FactsAt(rn) {
+							if x, eq, isNC := core.NilCompare(info, fc.Expr); isNC && core.ObjOf(info, x) == ds.callErr && eq == fc.Truth && fc.Edge != nil && g.Dominates(ds.call, fc.Edge) {
+								// err == nil holds: the edge follows the helper call and no other assignment of err lies between
+								fresh := true
+								for _, m := range stmtNodes(g) {
+									if m != ds.call && g.Dominates(ds.call, m) && g.Dominates(m, fc.Edge) && core.AssignsObj(info, m.Ast, ds.callErr) {
+										fresh = false
+									}
+								}
+								if fresh {
+									ok = true
+								}
+							}
+						}
+					}
+					r.Check(ok, rule, fmt.Sprintf("%s#prefix-consistent@%d", rd.Key, i), pos(r, rn.Ast), "success return only after "+ds.fn.Key+" succeeded, which checks prefixLen + payloadLen == len(record) = size",
+						"a success return is not dominated by a check that the decoded prefix (width + payload length) matches the record size")
+				}
+			} else {
+				for i, rn := range g.Returns() {
+					if nilErr, dec := isNilErrReturn(rd, rn); dec && !nilErr {
+						continue
+					}
+					r.Check(consistentAt(g, rn), rule, fmt.Sprintf("%s#prefix-consistent@%d", rd.Key, i), pos(r, rn.Ast), "success return dominated by the check prefixLen + payloadLen == size",
+						"a success return is not dominated by a check that the decoded prefix (width + payload length) matches the record size")
+				}
 			}
 			// the payload slice starts at n
 			okSlice := false
-			ast.Inspect(rd.Body, func(m ast.Node) bool {
-				if se, ok := m.(*ast.SliceExpr); ok && se.Low != nil && core.ObjOf(info, se.Low) == nObj {
+			ast.Inspect(ds.fn.Body, func(m ast.Node) bool {
+				if se, ok := m.(*ast.SliceExpr); ok && se.Low != nil && core.ObjOf(di, se.Low) == ds.nObj && core.ObjOf(di, se.X) == ds.rec {
 					okSlice = true
 				}
 				return true
@@ -460,7 +603,7 @@ func c06Reverse(r *core.Report) {
 		return
 	}
 	found := false
-	for _, fn := range f.AllWithLits() {
+	for _, fn := range pkgScope(p, f, 2) {
 		info := fn.Pkg.TypesInfo
 		for _, cs := range p.Calls(fn) {
 			if cs.Name != "gsfa/linkedlog.createIndexesPayload" || len(cs.Call.Args) != 1 {
@@ -572,7 +715,6 @@ func c06PartialFlushGuard(r *core.Report) {
 		return
 	}
 	info := f.Pkg.TypesInfo
-	g := r.Prog.Graph(f)
 	keyOfLit := func(e ast.Expr) types.Object {
 		cl, ok := core.Unparen(e).(*ast.CompositeLit)
 		if !ok {
@@ -586,74 +728,84 @@ func c06PartialFlushGuard(r *core.Report) {
 		return nil
 	}
 	nDirect, nSend := 0, 0
-	for _, n := range stmtNodes(g) {
-		// (a) direct flushes
-		ast.Inspect(n.Ast, func(m ast.Node) bool {
-			if _, isLit := m.(*ast.FuncLit); isLit {
-				return false
-			}
-			c, ok := m.(*ast.CallExpr)
-			if !ok || core.CalleeName(info, c) != "gsfa.(*GsfaWriter).flushKVs" {
-				return true
-			}
-			nDirect++
-			k := fmt.Sprintf("%s#direct-flush@%d-guarded-by-rank", f.Key, nDirect)
-			var key types.Object
-			if len(c.Args) > 0 {
-				key = keyOfLit(c.Args[0])
-			}
-			if key == nil {
-				r.Undecided(rule, k, pos(r, c), "key of the directly flushed batch not identified")
-				return true
-			}
-			ok = false
-			for _, fc := range g.FactsAt(n) {
-				if fc.Tag != nil || fc.Truth {
-					continue
-				}
-				hc, isCall := core.Unparen(fc.Expr).(*ast.CallExpr)
-				if isCall && core.CalleeName(info, hc) == "gsfa.(*rollingRankOfTopPerformers).has" && len(hc.Args) == 1 && core.ObjOf(info, hc.Args[0]) == key && g.FactFresh(fc, n) {
-					ok = true
-				}
-			}
-			r.Check(ok, rule, k, pos(r, c), "the synchronous partial flush is taken only for addresses that are not ranked (never filled a batch)",
-				"the synchronous partial flush is not guarded by !popRank.has(key): a short newer batch can be linked before an older full batch still parked in the background writer, breaking newest-first order")
-			return true
-		})
-		// (b) hand-offs
-		s, ok := n.Ast.(*ast.SendStmt)
-		if !ok || !strings.Contains(core.ExprStr(s.Chan), "fullBufferWriterChan") {
-			continue
+	// Push, its closures and the helpers of the package it calls (the partial flush may live in a helper)
+	var scope []*core.Func
+	for _, fn := range pkgScope(r.Prog, f, 2) {
+		if fn.Root().Key != "gsfa.(*GsfaWriter).flushKVs" {
+			scope = append(scope, fn)
 		}
-		nSend++
-		k := fmt.Sprintf("%s#send@%d-ranked-before-handoff", f.Key, nSend)
-		key := keyOfLit(s.Value)
-		if key == nil {
-			r.Undecided(rule, k, pos(r, s), "key of the handed-off batch not identified")
-			continue
-		}
-		incr := map[*core.GNode]bool{}
-		for _, m := range stmtNodes(g) {
-			es, ok := m.Ast.(*ast.ExprStmt)
-			if !ok {
+	}
+	for _, fn := range scope {
+		g := r.Prog.Graph(fn)
+		for _, n := range stmtNodes(g) {
+			// (a) direct flushes
+			ast.Inspect(n.Ast, func(m ast.Node) bool {
+				if _, isLit := m.(*ast.FuncLit); isLit {
+					return false
+				}
+				c, ok := m.(*ast.CallExpr)
+				if !ok || core.CalleeName(info, c) != "gsfa.(*GsfaWriter).flushKVs" {
+					return true
+				}
+				nDirect++
+				k := fmt.Sprintf("%s#direct-flush@%d-guarded-by-rank", f.Key, nDirect)
+				var key types.Object
+				if len(c.Args) > 0 {
+					key = keyOfLit(c.Args[0])
+				}
+				if key == nil {
+					r.Undecided(rule, k, pos(r, c), "key of the directly flushed batch not identified")
+					return true
+				}
+				ok = false
+				for _, fc := range g.FactsAt(n) {
+					if fc.Tag != nil || fc.Truth {
+						continue
+					}
+					hc, isCall := core.Unparen(fc.Expr).(*ast.CallExpr)
+					if isCall && core.CalleeName(info, hc) == "gsfa.(*rollingRankOfTopPerformers).has" && len(hc.Args) == 1 && core.ObjOf(info, hc.Args[0]) == key && g.FactFresh(fc, n) {
+						ok = true
+					}
+				}
+				r.Check(ok, rule, k, pos(r, c), "the synchronous partial flush is taken only for addresses that are not ranked (never filled a batch)",
+					"the synchronous partial flush is not guarded by !popRank.has(key): a short newer batch can be linked before an older full batch still parked in the background writer, breaking newest-first order")
+				return true
+			})
+			// (b) hand-offs
+			s, ok := n.Ast.(*ast.SendStmt)
+			if !ok || !strings.Contains(core.ExprStr(s.Chan), "fullBufferWriterChan") {
 				continue
 			}
-			if c, ok := es.X.(*ast.CallExpr); ok && core.CalleeName(info, c) == "gsfa.(*rollingRankOfTopPerformers).Incr" && len(c.Args) >= 1 && core.ObjOf(info, c.Args[0]) == key {
-				incr[m] = true
+			nSend++
+			k := fmt.Sprintf("%s#send@%d-ranked-before-handoff", f.Key, nSend)
+			key := keyOfLit(s.Value)
+			if key == nil {
+				r.Undecided(rule, k, pos(r, s), "key of the handed-off batch not identified")
+				continue
 			}
-		}
-		dom := false
-		for m := range incr {
-			if g.Dominates(m, n) {
-				dom = true
+			incr := map[*core.GNode]bool{}
+			for _, m := range stmtNodes(g) {
+				es, ok := m.Ast.(*ast.ExprStmt)
+				if !ok {
+					continue
+				}
+				if c, ok := es.X.(*ast.CallExpr); ok && core.CalleeName(info, c) == "gsfa.(*rollingRankOfTopPerformers).Incr" && len(c.Args) >= 1 && core.ObjOf(info, c.Args[0]) == key {
+					incr[m] = true
+				}
 			}
+			dom := false
+			for m := range incr {
+				if g.Dominates(m, n) {
+					dom = true
+				}
+			}
+			if !dom {
+				// or post-dominated within the same iteration: every path from the send to the loop head / exit passes Incr
+				dom = len(incr) > 0 && g.PathAvoiding(n, func(x *core.GNode) bool { return x.Kind == core.KExit || x == n }, func(x *core.GNode) bool { return incr[x] }) == nil && !g.Reach(n, func(x *core.GNode) bool { return incr[x] })[n]
+			}
+			r.Check(dom, rule, k, pos(r, s), "an address is ranked whenever a full batch of it is handed to the background writer",
+				"a full batch is handed to the background writer without ranking its address (popRank.Incr): a later partial flush of that address can overtake the parked batch")
 		}
-		if !dom {
-			// or post-dominated within the same iteration: every path from the send to the loop head / exit passes Incr
-			dom = len(incr) > 0 && g.PathAvoiding(n, func(x *core.GNode) bool { return x.Kind == core.KExit || x == n }, func(x *core.GNode) bool { return incr[x] }) == nil && !g.Reach(n, func(x *core.GNode) bool { return incr[x] })[n]
-		}
-		r.Check(dom, rule, k, pos(r, s), "an address is ranked whenever a full batch of it is handed to the background writer",
-			"a full batch is handed to the background writer without ranking its address (popRank.Incr): a later partial flush of that address can overtake the parked batch")
 	}
 	if nDirect == 0 {
 		r.Note("C06.R5: Push performs no synchronous flush")
@@ -872,4 +1024,106 @@ func emptiesSlice(p *core.Prog, root *core.Func, body ast.Node, s types.Object) 
 		return true
 	})
 	return ok
+}
+
+// c06AppendLayout decides the writer half of C06.R0 on the evaluated layout (reclayout.go) of the buffer that is handed
+// to (*LinkedLog).write, wherever in Put, its closures or the helpers it calls the record is built. It returns false when
+// the record is not built by appending (the positional shape is judged by the caller).
+func c06AppendLayout(r *core.Report, put *core.Func) bool {
+	const rule = "C06.R0"
+	p := r.Prog
+	scope := pkgScope(p, put, 2)
+	var wfn *core.Func
+	var bufObj, written types.Object
+	var wcall *ast.CallExpr
+	nWrites := 0
+	for _, fn := range scope {
+		info := fn.Pkg.TypesInfo
+		ast.Inspect(fn.Body, func(n ast.Node) bool {
+			if _, isLit := n.(*ast.FuncLit); isLit {
+				return false
+			}
+			as, ok := n.(*ast.AssignStmt)
+			if !ok || len(as.Rhs) != 1 || len(as.Lhs) != 3 {
+				return true
+			}
+			if c, ok := core.Unparen(as.Rhs[0]).(*ast.CallExpr); ok && core.CalleeName(info, c) == "gsfa/linkedlog.(*LinkedLog).write" && len(c.Args) == 1 {
+				nWrites++
+				wfn, wcall = fn, c
+				bufObj, written = core.ObjOf(info, c.Args[0]), core.ObjOf(info, as.Lhs[1])
+			}
+			return true
+		})
+	}
+	if nWrites != 1 || bufObj == nil || written == nil {
+		return false
+	}
+	segs, appendBuilt, why := bufferLayout(p, wfn, bufObj)
+	if !appendBuilt {
+		return false
+	}
+	if why != "" {
+		r.Undecided(rule, put.Key+"#writer-shape", pos(r, wcall), "the layout of the record handed to write could not be evaluated: "+why)
+		return true
+	}
+	info := wfn.Pkg.TypesInfo
+	first := len(segs) > 0 && segs[0].uvar
+	r.Check(first, rule, put.Key+"#record-starts-with-prefix", posP(r, put.Pos()), "the written record starts with the encoded prefix: "+segsString(segs), "the record written to the log does not start with the encoded length prefix: "+segsString(segs))
+	if first {
+		rest := sizePoly{terms: map[types.Object]int64{}}
+		onlyBytes := true
+		for _, sg := range segs[1:] {
+			if sg.uvar {
+				onlyBytes = false
+			}
+			rest = rest.add(sg.val)
+		}
+		r.Check(onlyBytes && segs[0].val.equal(rest), rule, put.Key+"#payload-length-excludes-prefix", pos(r, wcall),
+			"uvarint(P) with P = the number of bytes that follow the prefix ("+rest.String()+")",
+			"the length prefix encodes "+segs[0].val.String()+" but "+rest.String()+" bytes follow it ("+segsString(segs)+"): the reader's framing check fails or it mis-frames the record")
+	}
+	// the size handed to the after-callback is the byte count write reported for the whole record
+	afterArgOK, nAfter := false, 0
+	for _, c := range core.CallsIn(wfn.Body, false) {
+		v, isV := core.ObjOf(info, c.Fun).(*types.Var)
+		if !isV || len(c.Args) != 3 {
+			continue
+		}
+		if _, isSig := v.Type().Underlying().(*types.Signature); !isSig {
+			continue
+		}
+		nAfter++
+		afterArgOK = core.ObjOf(info, stripConvs(info, c.Args[2])) == written
+	}
+	r.Check(afterArgOK && nAfter == 1, rule, put.Key+"#reported-size-is-record-size", posP(r, put.Pos()), "callbackAfter receives the byte count of the whole record (prefix included)", "the size reported for the record is not the number of bytes written for it")
+	return true
+}
+
+// pkgScope returns f, its literals and the functions of the same package they call statically (with their literals), up to
+// the given call depth: the places a piece of f's work may have been moved to by extracting a helper.
+func pkgScope(p *core.Prog, f *core.Func, maxDepth int) []*core.Func {
+	var scope []*core.Func
+	seen := map[*core.Func]bool{}
+	var add func(f *core.Func, depth int)
+	add = func(g *core.Func, depth int) {
+		for _, fn := range g.AllWithLits() {
+			if seen[fn] {
+				continue
+			}
+			seen[fn] = true
+			scope = append(scope, fn)
+			if depth >= maxDepth {
+				continue
+			}
+			for _, cs := range p.Calls(fn) {
+				for _, t := range cs.Targets {
+					if t.Pkg == f.Pkg && t.Body != nil && !cs.Dynamic {
+						add(t, depth+1)
+					}
+				}
+			}
+		}
+	}
+	add(f, 0)
+	return scope
 }
